@@ -1,7 +1,7 @@
 #!/bin/bash
 # dev helper: assemble + verify one unit, print rendered diagnostics
 cd /verif
-python3 tools/assemble.py $1 -o build/$1.rs $2 || exit 2
+python3 tools/assemble.py $1 -o build/$1.rs $2 2>&1 || { echo 'error: DRIFT'; exit 2; }
 cd build && verus $1.rs --error-format=json --output-json --time-expanded ${@:3} 2>$1.err >$1.json
 python3 - $1 <<'PY'
 import json,sys
